@@ -1,5 +1,4 @@
 import sys
-from functools import lru_cache
 
 from xlcalculator.xlfunctions import xl, func_xltypes
 
@@ -11,6 +10,7 @@ class EvaluatorContext(ast_nodes.EvalContext):
     def __init__(self, evaluator, ref):
         super().__init__(evaluator.namespace, ref)
         self.evaluator = evaluator
+        self._cache = {}
 
     @property
     def cells(self):
@@ -20,15 +20,14 @@ class EvaluatorContext(ast_nodes.EvalContext):
     def ranges(self):
         return self.evaluator.model.ranges
 
-    @lru_cache(maxsize=None)
     def eval_cell(self, addr):
-        # Check for a cycle.
-        if addr in self.seen:
-            raise RuntimeError(
-                f'Cycle detected for {addr}:\n- ' + '\n- '.join(self.seen))
-        self.seen.append(addr)
-
-        return self.evaluator.evaluate(addr, None)
+        # Results are remembered for the lifetime of this context (i.e. the
+        # evaluation of one cell).  A cache on the class would keep every
+        # context, and all it refers to, alive forever.
+        if addr not in self._cache:
+            self.seen.append(addr)
+            self._cache[addr] = self.evaluator.evaluate(addr, None)
+        return self._cache[addr]
 
 
 class Evaluator:
